@@ -117,7 +117,7 @@ func (h *encHooks) Call(in *sym.Interp, fr *sym.Frame, site ssa.CallInstruction,
 		} else if rs.Len() > 1 {
 			rt = rs
 		}
-		evArgs := args
+		evArgs := canonArgs(callee, args)
 		if fs := h.snap[callee.Name()]; len(fs) > 0 && h.encT != nil {
 			evArgs = append([]*sym.Term{}, args...)
 			eobj := in.ParamObj("e", h.encT)
